@@ -237,7 +237,7 @@ pub fn run(run: &mut Run) -> &'static str {
     });
     // very long histories (nesting beyond 1024 plies)
     let cases = run.tier.pick(320, 6_000);
-    run.proptest_part("long_histories", RULE, hist_case(4..120), cases, |case: &HistCase, st: &mut Stats| {
+    run.proptest_part("long_histories", RULE, hist_case(400..1500), cases, |case: &HistCase, st: &mut Stats| {
         let mut obs = Obs { snaps: vec![] };
         if let Some((feat, root, ops)) = interpret(case, &Config::long(), st, &mut obs)? {
             st.class_n("max_nesting_depth_reached_1025_or_more", u64::from(feat.max_depth >= 1025));
